@@ -726,6 +726,14 @@ func main() {
 			add("deep", deepValue(d, kind, common.Pick(r, []any{nil, 1, "x", []any{}, map[string]any{}, 1.5})))
 		}
 	}
+	// depths around every power of two up to 512 (a depth limit or a fixed-size stack in an encoder)
+	for _, d := range []int{63, 64, 65, 127, 128, 129, 255, 256, 257, 258, 511, 512, 513} {
+		if !ctx.Thorough && d > 300 {
+			continue // indented output is quadratic in the depth
+		}
+		add("deep", deepValue(d, d%4, common.Pick(r, []any{nil, 1, "x", []any{}, map[string]any{}})))
+		add("deep", deepValue(d, (d+1)%4, common.Pick(r, []any{nil, 1, "x", []any{}, map[string]any{}})))
+	}
 	for _, w := range []int{1, 2, 16, 17, 31, 32, 33, 100, 200} {
 		for kind := 0; kind < 3; kind++ {
 			add("wide", wideValue(r, w, kind))
